@@ -111,6 +111,9 @@ def mapPut {α : Type} : List (Int × α) → Int → α → List (Int × α)
     else if k = k' then (k, v) :: rest
     else (k', v') :: mapPut rest k v
 
+/-- `fmt.Sprintf("%d", n)` / `strconv.Itoa(n)`: the decimal text of an int -/
+def itoa (n : Int) : String := toString n
+
 /-- the values of `for i := a; i >= b; i--` -/
 def downFrom (a b : Int) : List Int := (List.range (a - b + 1).toNat).map (fun (j : Nat) => a - (j : Int))
 
